@@ -170,10 +170,20 @@ fn execute(prog: Program, wire: bool) -> Outcome {
     out.setup_ok = true;
     let seq = StdArc::new(AtomicU64::new(1));
     let wrecs: StdArc<StdMutex<Vec<WRec>>> = StdArc::new(StdMutex::new(Vec::new()));
+    // subscribers stay until every writer is done (however long the writers are descheduled)
+    let writers_left = StdArc::new(AtomicU64::new(prog.writers.len() as u64));
     let mut whandles = Vec::new();
     for (wi, ops) in prog.writers.iter().cloned().enumerate() {
         let (dbs, seq, wrecs) = (dbs.clone(), seq.clone(), wrecs.clone());
+        let writers_left_w = writers_left.clone();
         whandles.push(spawn_on_node(&w, 0, &format!("writer{}", wi), move || {
+            struct Done(StdArc<AtomicU64>);
+            impl Drop for Done {
+                fn drop(&mut self) {
+                    self.0.fetch_sub(1, Ordering::SeqCst);
+                }
+            }
+            let _done = Done(writers_left_w);
             let mut s = Session::new(&dbs);
             s.exec("use-db d tok");
             for op in ops {
@@ -210,6 +220,7 @@ fn execute(prog: Program, wire: bool) -> Outcome {
     let tcp = w.nodes[0].tcp.clone();
     for (si, ops) in prog.subscribers.iter().cloned().enumerate() {
         let (dbs, seq, recs, nts, tcp) = (dbs.clone(), seq.clone(), srecs[si].clone(), notes[si].clone(), tcp.clone());
+        let writers_left_s = writers_left.clone();
         let body = move || {
             if wire {
                 let mut c = match WireClient::connect(&tcp) {
@@ -225,28 +236,23 @@ fn execute(prog: Program, wire: bool) -> Outcome {
                         }
                     }
                 };
-                if let Some(l) = c.request("use-db d tok", 2_000) {
-                    take(l, &nts);
-                }
+                take(c.request_lossy("use-db d tok", 2_000).0, &nts);
                 for op in ops {
                     let invoke = seq.fetch_add(1, Ordering::SeqCst);
                     match &op {
                         SOp::Watch { key } => {
-                            if let Some(l) = c.request(&format!("watch {}", key), 2_000) {
-                                take(l, &nts);
-                            }
+                            take(c.request_lossy(&format!("watch {}", key), 2_000).0, &nts);
                         }
                         SOp::Unwatch { key } => {
-                            if let Some(l) = c.request(&format!("unwatch {}", key), 2_000) {
-                                take(l, &nts);
-                            }
+                            take(c.request_lossy(&format!("unwatch {}", key), 2_000).0, &nts);
                         }
                         SOp::UnwatchAll => {
-                            if let Some(l) = c.request("unwatch-all", 2_000) {
-                                take(l, &nts);
-                            }
+                            take(c.request_lossy("unwatch-all", 2_000).0, &nts);
                         }
                         SOp::Disconnect => {
+                            // what was delivered up to now is read first (the handler polls its channel
+                            // every 2 ms and may be descheduled): the session then goes away
+                            take(c.request_lossy("get zz", 2_000).0, &nts);
                             c.close();
                         }
                         SOp::Pause => sleep_ms(3),
@@ -258,10 +264,9 @@ fn execute(prog: Program, wire: bool) -> Outcome {
                     }
                 }
                 // stay connected until the writers are done, then collect what is left
+                wait_cond(20_000, 5, || writers_left_s.load(Ordering::SeqCst) == 0);
                 sleep_ms(60);
-                if let Some(l) = c.request("get zz", 2_000) {
-                    take(l, &nts);
-                }
+                take(c.request_lossy("get zz", 2_000).0, &nts);
             } else {
                 let mut s = Session::new(&dbs);
                 s.exec("use-db d tok");
@@ -287,6 +292,7 @@ fn execute(prog: Program, wire: bool) -> Outcome {
                     nts.lock().unwrap().append(&mut msgs);
                 }
                 // keep the receiver alive until the writers are done
+                wait_cond(20_000, 5, || writers_left_s.load(Ordering::SeqCst) == 0);
                 sleep_ms(50);
                 let mut rest = s.drain();
                 nts.lock().unwrap().append(&mut rest);
